@@ -32,7 +32,10 @@ class ResultGetPictureIqProtocolEntity(PictureIqProtocolEntity):
 
     def toProtocolTreeNode(self):
         node = super(ResultGetPictureIqProtocolEntity, self).toProtocolTreeNode()
-        pictureNode = ProtocolTreeNode({"type": "preview" if self.isPreview() else "image" }, data = self.getPictureData())
+        attribs = {"type": "preview" if self.isPreview() else "image"}
+        if self.getPictureId() is not None:
+            attribs["id"] = self.getPictureId()
+        pictureNode = ProtocolTreeNode("picture", attribs, data = self.getPictureData())
         node.addChild(pictureNode)
         return node
 
